@@ -253,3 +253,53 @@ prop(
     ],
     floor={"quick": 500, "thorough": 10000},
 )
+
+prop(
+    "C03",
+    title="Translation never silently drops or invents nodes, edges or references",
+    level="exploration",
+    technique="property-based differential testing: writer output decoded with encoding/json only and checked against the document (rapid) + mutated real SBOMs",
+    design_ref="DESIGN.md §5 C03",
+    rule=("(a) rapid draws well-formed documents (<=6 nodes with valid SPDX ids, DAG/cyclic/non-forest containment, dependsOn and other typed edges between "
+          "arbitrary nodes, 0-3 purposes, 0..n roots) and writes them in every format for which a serializer is registered at run time; (b) every real SBOM "
+          "under /repo's testdata and examples (size-bounded per tier) verbatim and after 1-5 schema-preserving JSON mutations (delete optional member, "
+          "drop/duplicate/swap array elements) is parsed and written in every format of the other family. Non-trivial = >=3 nodes and (dependsOn between "
+          "non-root nodes, or a node with >=2 purposes, or non-forest containment), or a parsed real file; distinct = digest of document / of file and mutation."),
+    assumptions=["a refused write (multi-root or rootless CycloneDX, CycloneDX < 1.2 JSON) is an error return, not a silent loss", "Metadata.Name empty or equal to the root's name (KF-03)",
+                 "parsed real documents that are not closed graphs are C05's subject and are skipped here (counted)"],
+    level_text=("Whenever a write succeeds the bytes are decoded independently of protobom: SPDX - every node exactly once among packages and files, one "
+                "relationship with the specification's name per edge target, one DESCRIBES per root, no dangling endpoint; CycloneDX - every node as a bom-ref "
+                "(exactly once when containment is a forest), none invented, containment nested under a container, dependsOn in the dependency graph, no "
+                "dangling ref. Reading back returns the same id, name, version and shared hashes / purl / CPE per node."),
+    level_note="trusts encoding/json, rapid and the harness's relationship-name table (SPDX 2.3 §11) in harness/props/c03_test.go",
+    jobs=[
+        {"test": "TestC03", "checks": 1500, "timeout": 400, "thorough": {"checks": 15000, "shards": 12, "timeout": 1700}},
+        {"test": "TestC03Real", "rapid": False, "timeout": 600, "thorough": {"shards": 4, "timeout": 1700}},
+        {"test": "TestC03Findings", "rapid": False, "timeout": 60},
+    ],
+    floor={"quick": 300, "thorough": 3000},
+)
+
+prop(
+    "C04",
+    title="Parsers are total on untrusted input",
+    level="fault_enumeration",
+    technique="systematic schema-fault enumeration over every JSON path + property-based hostile-input generation (rapid) + native go fuzzing in the thorough tier",
+    design_ref="DESIGN.md §5 C04",
+    rule=("Every single fault (13 operators: null, number, negative, float, string, bool, object, array, empty, absent, duplicate, oversized, deep) at every "
+          "JSON path of four representative documents (hand-written SPDX 2.3 and CycloneDX 1.5 documents populating every member the parsers read, bom-1.4.json, "
+          "bom-1.5.json); double faults sampled (quick) or enumerated on the hand-written documents (thorough); rapid-generated byte strings, JSON token soup, "
+          "truncations, BOM prefixes, nesting to 20000 levels, 1 MB strings, tag-value look-alikes; depth-n / width-n scaling families n=8..512; thorough adds "
+          "coverage-guided native fuzzing. Each input goes through detection, auto-detected parsing and every registered parser. Non-trivial/distinct = distinct (base, fault) or distinct input bytes."),
+    assumptions=["a 30 s watchdog per input <=1 MB stands for 'polynomial time' (typical parse: milliseconds)", "inputs with more than 12 entries in one CycloneDX licences array are excluded (KF-05)"],
+    level_text=("Fault enumeration: all single schema faults at all paths are executed (exhaustive for the listed documents and operators); each call must return "
+                "(document with metadata and node list) xor error, without panic, process death (journal + re-execution) or watchdog hit."),
+    level_note="trusts the harness's JSON model/fault operators (harness/hx/jsonmodel.go); third-party decoders are part of the system under test",
+    jobs=[
+        {"test": "TestC04Faults", "rapid": False, "exhaustive": True, "replay_test": "TestC04Replay", "timeout": 600, "shards": 4, "mem_gb": 6, "thorough": {"shards": 16, "timeout": 3000}},
+        {"test": "TestC04Bytes", "checks": 1500, "replay_test": "TestC04Replay", "timeout": 600, "mem_gb": 6, "thorough": {"checks": 10000, "shards": 8, "timeout": 3000}},
+        {"test": "TestC04Scaling", "rapid": False, "replay_test": "TestC04Replay", "timeout": 300, "mem_gb": 6},
+        {"test": "TestC04Findings", "rapid": False, "timeout": 60},
+    ],
+    floor={"quick": 2000, "thorough": 20000},
+)
